@@ -229,6 +229,8 @@ func checkC01(c *Ctx) {
 	c01Once(c)
 	c01OneAnswer(c)
 	c01FreshBuffer(c)
+	// "for every answer size": no reader of a peer's stream has a line limit an ordinary answer exceeds
+	scannersBounded(c, c.P.LibFns, "R-bounded-scanner")
 	c03QueueAnswered(c)
 	c05Pending(c)
 	c05PendingKey(c)
